@@ -254,4 +254,16 @@ def _as_mask(nasset):
         pv1, pv2 = pv2, pv1
     return pv1, pv2
 """, "mat_intersect: search in a sorted copy instead of passing a sorter"),
+    ("C18", "neutral", [], N2P, "    if np.any(~pvmajor & pvminor):\n        raise ValueError(\"`minorset`", "    if not np.all(pvmajor | ~pvminor):\n        raise ValueError(\"`minorset`",
+     "mksetpv: refusal test written as not all(major or not minor)"),
+    ("C18", "break", ["C18-R2"], N2P, "    if np.any(~pvmajor & pvminor):\n        raise ValueError(\"`minorset`", "    if np.all(~pvmajor & pvminor):\n        raise ValueError(\"`minorset`",
+     "mksetpv: refuses only when every DOF is outside"),
+    ("C18", "break", ["C18-R2"], N2P, "    if np.any(~pvmajor & pvminor):\n        raise ValueError(\"`minorset`", "    if np.any(~pvmajor | pvminor):\n        raise ValueError(\"`minorset`",
+     "mksetpv: refusal test with | instead of &"),
+    ("C18", "break", ["C18-R5"], LOC, "        if stop < 0:\n            stop = None\n        return slice(pv[0], stop, d0)",
+     "        if stop < 1:\n            stop = None\n        return slice(pv[0], stop, d0)", "index2slice: stop < 1 is stop <= 0"),
+    ("C18", "neutral", [], LOC, "        if stop < 0:\n            stop = None\n        return slice(pv[0], stop, d0)",
+     "        if stop <= -1:\n            stop = None\n        return slice(pv[0], stop, d0)", "index2slice: stop <= -1 is stop < 0 (integers)"),
+    ("C18", "neutral", [], LOC, "        stop = pv[0] + 1\n        if stop == 0:\n            stop = None\n        return slice(pv[0], stop)",
+     "        return slice(pv[0], (pv[0] + 1) or None)", "index2slice: `stop or None` for the single entry"),
 ]
